@@ -572,9 +572,18 @@ func C04(run *Run) {
 	rec := &Recorder{}
 	loEngines := []string{"classic", "weighted", "pipeline"}
 	skippedInvalid := 0
-	for c := 0; c < nCases; c++ {
-		cs, _ := GenCase(r, c, GenOpts{MinTuples: 8})
-		stored, ctxt := splitTuples(r, cs)
+	ordered := contextualOrderCases() // contextual vs stored tuple in one bucket, every order
+	for c := 0; c < nCases+len(ordered); c++ {
+		var cs *Case
+		var stored, ctxt []Tuple
+		var reqs []Req
+		if c < nCases {
+			cs, _ = GenCase(r, c, GenOpts{MinTuples: 8})
+			stored, ctxt = splitTuples(r, cs)
+		} else {
+			sc := ordered[c-nCases]
+			cs, stored, ctxt, reqs = sc.cs, sc.stored, sc.ctxt, sc.reqs
+		}
 		if err := v.Base.Setup(ctx, cs.Model, stored); err != nil {
 			run.Inconclusive("setup failed: %v", err)
 		}
@@ -585,7 +594,9 @@ func C04(run *Run) {
 		se := cs.SetupEv()
 		se.Tuples = normTuples(stored)
 		rec.Setup(se)
-		reqs := GenRequests(r, cs, run.Pick(16, 30))
+		if reqs == nil {
+			reqs = GenRequests(r, cs, run.Pick(16, 30))
+		}
 		for i, q := range reqs {
 			var ct []Tuple
 			switch i % 3 { // interleave: full contextual set, a different subset, none
@@ -614,7 +625,7 @@ func C04(run *Run) {
 			}
 			// the weighted-graph engine keeps contextual tuples in its own index next to the datastore
 			if mg != nil && v1def != nil {
-				for _, eng := range []string{"v2:default", "server:v2"} {
+				for _, eng := range []string{"v2:default", "v2:weight2", "v2:recursive", "server:v2"} {
 					ev := &V2Ev{CheckEv: CheckEv{Eng: eng, O: q.O, R: q.R, U: q.U, Ctx: q.Ctx, Ctxt: ct}}
 					if eng == "server:v2" {
 						v.Get("server:v2").RunCheck(ctx, &ev.CheckEv, ts, mg)
